@@ -11,6 +11,7 @@ import Tranp.Lemmas.BlockParse
 import Tranp.Lemmas.BlockCallers
 import Tranp.Lemmas.BlockTotal
 import Tranp.Lemmas.BlockLast
+import Tranp.Lemmas.BlockMulti
 import Tranp.Generated.BlockCallSites
 
 namespace Tranp.C18
@@ -30,6 +31,25 @@ theorem skip_group (k : BK) (i : Frag) (pre rest : Str) (hi : Frag.Simple i) :
 example :
     let i : Frag := .group .sq (.atom 'a' .nil) (.atom ',' (.group .cur (.str .dq [')'] (.atom ':' (.atom '1' .nil))) .nil))
     Frag.Simple i ∧ skipOther allPairs (['f'] ++ (Frag.group .par i .nil).render ++ [' ', '+', ' ', 'g']) 1 = 14 := by
+  decide
+
+/-- A string nested inside a group (the shape of seed C18-9): whatever the string holds — brackets of every kind, the
+    closing bracket of the group itself, the other quote — and whatever stands around it inside the group, the skip started on
+    the group's opening bracket ends right behind the group's own closing bracket. (Instance of `skip_group`, stated on its
+    own because "inside a string" has to be decided from the top of the closer stack, not from the character the skip
+    started on.) -/
+theorem skip_string_in_group (k : BK) (q : QK) (a r : Frag) (body pre rest : Str) (ha : Frag.Simple a) (hr : Frag.Simple r)
+    (hb : ∀ c ∈ body, c ≠ q.ch) :
+    skipOther allPairs (pre ++ (Frag.group k (a ++ Frag.str q body r) .nil).render ++ rest) pre.length
+      = pre.length + (Frag.group k (a ++ Frag.str q body r) .nil).render.length :=
+  skip_group k _ pre rest ((simple_append_iff _ _).mpr ⟨ha, (simple_str q body r).mpr ⟨hb, hr⟩⟩)
+
+/-- non-vacuity: `f(a, ")]('", b) + c` from the `(` -/
+example :
+    let a : Frag := .atom 'a' (.atom ',' (.atom ' ' .nil))
+    let r : Frag := .atom ',' (.atom ' ' (.atom 'b' .nil))
+    Frag.Simple a ∧ Frag.Simple r ∧
+      skipOther allPairs (['f'] ++ (Frag.group .par (a ++ Frag.str .dq [')', ']', '(', '\''] r) .nil).render ++ [' ', '+', ' ', 'c']) 1 = 15 := by
   decide
 
 /-- The same for a quoted string that does not contain its own quote (brackets, the other quote, delimiters allowed). -/
@@ -558,7 +578,36 @@ example : queryAny [['a', '(', 'x', ')'], ['b'], ['a']] [['a']] = .ok [['a', '('
 
 /-! ## multi-character delimiters -/
 
-/-- "The pieces of `break_separator(text, d)` rejoined with `d` give the text up to blanks" for a multi-character `d`:
+/-- `break_separator` with a multi-character delimiter that can not overlap itself (`delimGuard`: its first character does
+    not occur again in it, no bracket or quote character — `, `, `: `, ` =`, every one-character delimiter; not ` = `, `::`, `->`): the exact pieces
+    for every fragment. A cut is made where the delimiter stands at top level with at least one character behind it; the
+    characters of the delimiter belong to no piece. -/
+theorem sep_multichar_spec (d0 : Char) (ds : Str) (hd : delimGuard (d0 :: ds) = true) (f : Frag) (hf : Frag.Simple f) :
+    breakSeparator f.render (d0 :: ds) = .ok (specM d0 ds f [] []) := by
+  obtain ⟨d0', ds', he, hds⟩ := delimGuard_elim _ hd
+  injection he with h1 h2
+  subst h1; subst h2
+  exact breakSeparator_multi d0 ds hds f hf
+
+/-- … and the rejoin law under the same guard: there are segments with `d.join(segments) = text` and
+    `pieces = [s.strip(' ') for s in segments]`. -/
+theorem sep_multichar_rejoin (d : Str) (hd : delimGuard d = true) (f : Frag) (hf : Frag.Simple f) (hne : f ≠ .nil) :
+    ∃ segs : List Str, Str.join d segs = f.render ∧ breakSeparator f.render d = .ok (segs.map strip) :=
+  breakSeparator_multi_rejoin d hd f hf hne
+
+/-- non-vacuity: `a, f(b, c), "d, e", g, ` with `, ` (inside a group, inside a string, at top level, at the very end) -/
+example :
+    let f : Frag := Frag.join ',' [.atom 'a' .nil, .atom ' ' (.atom 'f' (.group .par (.atom 'b' (.atom ',' (.atom ' ' (.atom 'c' .nil)))) .nil)),
+      .atom ' ' (.str .dq ['d', ',', ' ', 'e'] .nil), .atom ' ' (.atom 'g' .nil), .atom ' ' .nil]
+    delimGuard [',', ' '] = true ∧ Frag.Simple f ∧
+      breakSeparator f.render [',', ' '] = .ok [['a'], ['f', '(', 'b', ',', ' ', 'c', ')'], ['"', 'd', ',', ' ', 'e', '"'], ['g', ',']] := by
+  decide
+
+/-- every delimiter literal of the generated call-site table satisfies the guard (they are one character long) -/
+theorem callsites_delim_guard : ∀ s ∈ delimiterSites, delimGuard s.2 = true := by decide
+
+/-- "The pieces of `break_separator(text, d)` rejoined with `d` give the text up to blanks" for EVERY multi-character `d`
+    (without the guard):
     false when occurrences of `d` overlap — after a cut the scan goes on one character later, not behind the delimiter. -/
 def sep_multichar_rejoin_statement : Prop :=
   ∀ (text d : Str) (pieces : List Str), (∀ c ∈ text ++ d, has Frag.special c = false ∧ c ≠ ' ') → d ≠ [] →
